@@ -514,6 +514,8 @@ def same(a, b, rtol=1e-12):
 def oracle_B(c, out):
     v = []
     seen = {}
+    # part C: two pycalphad runs of the same point are compared (not assumed bit-identical)
+    rt_exp, rt_fresh = (1e-9, 1e-9) if c['part'] == 'C' else (1e-12, 0)
     for i, st in enumerate(c['steps']):
         exp = expected_B(c, st)
         (cv, cerr), (fv, ferr) = out['cached'][i], out['fresh'][i]
@@ -524,10 +526,10 @@ def oracle_B(c, out):
         if ferr is not None:
             v.append(('postprocess_by_name', "%s: exception" % st['mode'], i,
                       '%s raised %s in a %s (database phases %r, stable phases %r)' % (what, ferr, region, c['db'], stable)))
-        elif not same(fv, exp):
+        elif not same(fv, exp, rt_exp):
             v.append(('postprocess_by_name', "%s: wrong phase" % st['mode'], i,
                       '%s on stable phases %r (database order %r): got %r, the option applied to the named (majority) phase gives %r' % (what, stable, c['db'], fv, exp)))
-        elif cerr is not None or not same(cv, fv, 0):
+        elif cerr is not None or not same(cv, fv, rt_fresh):
             v.append(('evaluation_history_independent', 'cached arrays modified', i,
                       'step %d (%s, rule %s) with the hash table on returned %r, a cache-free evaluation of the same point returns %r'
                       % (i, what, RULES[st['rule']], cv if cerr is None else cerr, fv)))
